@@ -24,7 +24,7 @@ from ..kernel import Discard, EventLog, InjectedFault, Streams, Violation, close
 PROP = "C10"
 
 EVIDENCE = {
-    "probes_expected": ["condensed-vs-explicit-compared", "restart-dropped-state", "recreated-body-compared", "matrix-after-evaluate-compared", "unrelated-dual-field-created-before", "uniform-knob-compared", "uniform-knob-assembly-compared", "planestrain-slab-compared", "axisymmetric-energy-compared", "axisymmetric-stress-reused", "fault:solver_inexact", "distorted-mesh"],
+    "probes_expected": ["condensed-vs-explicit-compared", "restart-dropped-state", "recreated-body-compared", "matrix-after-evaluate-compared", "unrelated-dual-field-created-before", "uniform-knob-compared", "uniform-knob-assembly-compared", "planestrain-slab-compared", "axisymmetric-energy-compared", "axisymmetric-stress-reused", "kinematics-buffers-checked", "fault:solver_inexact", "distorted-mesh"],
     "clauses_sampled_only": [
         "plane strain vs unit-thickness slab (in-plane forces and stiffness) is a pure function of the state; evaluated at the converged states the histories reach",
         "axisymmetric nodal forces = derivative of the 2 pi R weighted strain energy: pure; evaluated by central differences of the energy at the reached states. Convergence of the axisymmetric model to a revolved 3D model is not attempted",
@@ -315,6 +315,41 @@ def run_uniform(doc, log):
     return eng1
 
 
+
+def check_kinematics_buffers(w, um, log, kind):
+    """The 3x3 kinematics of a 2D field kind are the zero-padded (plane strain) / hoop-completed
+    (axisymmetric) in-plane gradient whatever the given `out=` arrays held before: the documented
+    `out` argument of grad / extract, and a body evaluated again after its handed-out kinematics
+    arrays were used as scratch by the caller."""
+    rng = np.random.default_rng(7)
+    ref = [np.array(a, copy=True) for a in w.field.extract()]
+    f0 = w.field[0]
+    for fill in (np.nan, 3.25):
+        work = np.full(ref[0].shape, fill)
+        got = f0.grad(out=work)
+        got = np.asarray(got)
+        want = np.asarray(f0.grad())
+        if got.shape != want.shape or not np.array_equal(got, want):
+            raise Violation(PROP, kind, f"field.grad(out=<array holding {fill}>) differs from field.grad() (max diff {np.nanmax(np.abs(got - want)) if got.shape == want.shape else 'shape'})", site=f"{type(f0).__name__}.grad(out)")
+        works = [np.full(a.shape, fill) for a in ref]
+        got = w.field.extract(out=works)
+        for a, b_ in zip(got, ref):
+            if np.shape(a) != b_.shape or not np.array_equal(np.asarray(a), b_):
+                raise Violation(PROP, kind, f"field.extract(out=<arrays holding {fill}>) differs from field.extract()", site=f"{type(f0).__name__}.extract(out)")
+    body = fem.SolidBody(um, w.field)
+    r1 = body.assemble.vector(field=w.field).toarray()
+    K1 = body.assemble.matrix(field=w.field).toarray()
+    for a in body.results.kinematics:
+        if isinstance(a, np.ndarray) and a.flags.writeable:
+            a[...] = rng.normal(size=a.shape)
+    r2 = body.assemble.vector(field=w.field).toarray()
+    K2 = body.assemble.matrix(field=w.field).toarray()
+    if not (np.array_equal(r1, r2) and np.array_equal(K1, K2)):
+        dr = float(np.abs(r1 - r2).max())
+        dK = float(np.abs(K1 - K2).max())
+        raise Violation(PROP, kind, f"a body evaluated again at the same field after its handed-out kinematics arrays were overwritten gives other forces / stiffness (max diff {dr:.3e} / {dK:.3e})", site=f"{type(f0).__name__}.kinematics-buffer")
+    log.count("kinematics-buffers-checked")
+
 # ----------------------------------------------------------------------------------------
 def run_planestrain(doc, log):
     w, eng, exc = run_history(doc, log)
@@ -342,6 +377,7 @@ def run_planestrain(doc, log):
         r = body3.assemble.vector(field=f3).toarray().reshape(-1, 3)
         K3 = body3.assemble.matrix().toarray()
         w.set_values(rec["x"])
+        check_kinematics_buffers(w, um2, log, "planestrain-slab")
         body2 = fem.SolidBody(um2, w.field)
         r2 = body2.assemble.vector(field=w.field).toarray().reshape(-1, 2)
         K2 = body2.assemble.matrix().toarray()
@@ -387,6 +423,7 @@ def run_axi(doc, log):
     # a state off equilibrium so that the forces are not all zero
     u = u + 0.01 * rng.normal(size=u.shape) * (w.mesh.points[:, [1]] > 1e-12)
     w.set_values([u])
+    check_kinematics_buffers(w, um, log, "axisymmetric-energy")
     body = fem.SolidBody(um, w.field)
     f = body.assemble.vector(field=w.field).toarray().reshape(u.shape)
     # one evaluated stress array used for several forms (reactions, post-processing): every
